@@ -186,9 +186,39 @@ def run(ctx):
     # map: source attribute -> add_placeholder parameter -> new_placeholder_sp parameter -> ph attribute store
     ap_params = ap.params[1:]
     flow = {}
+    cval = P_.value_aliases(cpx)
+    shape_el = prog.cls("pptx.oxml.shapes.shared", "BaseShapeElement")
+
+    def record_field(a):
+        """`R.f` where R is a record property of the source element (`element.ph_props`, a NamedTuple built from p:ph attributes):
+        the reader-property name (`ph_<attr>`) of the p:ph attribute field f is built from"""
+        if not isinstance(a, ast.Attribute):
+            return None
+        r = cval.get(a.value.id, a.value) if isinstance(a.value, ast.Name) else a.value
+        if not isinstance(r, ast.Attribute) or shape_el is None:
+            return None
+        pr = prog.lookup(shape_el, r.attr)
+        if pr is None or pr.kind not in ("property", "lazyproperty"):
+            return None
+        rets_ = [x.value for x in ast.walk(pr.node) if isinstance(x, ast.Return) and isinstance(x.value, ast.Call)]
+        if len(rets_) != 1:
+            return None
+        c_ = rets_[0]
+        fields = {k.arg: k.value for k in c_.keywords if k.arg}
+        rc_ = prog.resolve(pr.module, dotted(c_.func) or "")
+        if c_.args and hasattr(rc_, "node"):
+            names_ = [n_.target.id for n_ in rc_.node.body if isinstance(n_, ast.AnnAssign) and isinstance(n_.target, ast.Name)]
+            fields.update(dict(zip(names_, c_.args)))
+        v_ = fields.get(a.attr)
+        if isinstance(v_, ast.Attribute) and isinstance(v_.value, ast.Name):
+            return "ph_" + v_.attr   # the field is the p:ph attribute of that name, as the ph_<attr> readers return it
+        return None
+
     for i, a in enumerate(call.args):
         if isinstance(a, ast.Name) and a.id in reads and i < len(ap_params):
             flow[reads[a.id]] = ap_params[i]
+        elif record_field(a) is not None and i < len(ap_params):
+            flow[record_field(a)] = ap_params[i]
         elif isinstance(a, ast.Attribute) and a.attr.startswith("ph_") and i < len(ap_params):
             flow[a.attr] = ap_params[i]   # read in place: add_placeholder(..., sp.ph_type, ...)
     for k_ in call.keywords:
@@ -334,7 +364,11 @@ def run(ctx):
 
     xp = [prog.const(n.args[0], nm.module) for n in walk_own(nm.node) if isinstance(n, ast.Call)
           and isinstance(n.func, ast.Attribute) and n.func.attr == "xpath" and n.args]
-    idiom = idiom_while_not_in(nm.node) or idiom_while_in(nm.node) or idiom_first_gap(nm.node)   # while-loops and `for n in count(...)`
+    from sa.inline import expand as _exp13
+
+    nmx = _exp13(prog, nm, local_only=True)   # pipelines (`next(n for n in candidates if n not in names)`) read as loops
+    idiom = idiom_while_not_in(nm.node) or idiom_while_in(nm.node) or idiom_first_gap(nm.node) \
+        or idiom_while_not_in(nmx) or idiom_while_in(nmx) or idiom_first_gap(nmx)   # while-loops and `for n in count(...)`
     if "//p:cNvPr/@name" in xp and idiom and not _stale_returns(nm):
         ctx.ok("R13.4", "_next_ph_name", sample={"population": "//p:cNvPr/@name", "idiom": idiom})
     elif "//p:cNvPr/@name" in xp and not idiom and any(
